@@ -40,6 +40,48 @@ func (h *Heap) declare(key, sort string) {
 	}
 	h.sorts[key] = sort
 	h.order = append(h.order, key)
+	if nf := h.nilFacts(key, h.vc.Global("H0:"+key, sort)); nf != "true" {
+		h.vc.Fact(nf)
+	}
+}
+
+// nilFacts: the nil map (reference 0) is empty, in every version of the map heap.
+func (h *Heap) nilFacts(key, term string) string {
+	switch {
+	case strings.HasPrefix(key, "MD:"):
+		sort := h.sorts[key]
+		inner := sort[len("(Array Int ") : len(sort)-1]
+		return Eq(Select(term, "0"), constArray(inner, "false"))
+	case strings.HasPrefix(key, "ML:"):
+		return Eq(Select(term, "0"), "0")
+	case strings.HasPrefix(key, "F:"):
+		// convention: fields of the nil object read as zero values (never observable in Go,
+		// since dereferencing nil panics; stores and havocs at reference 0 are excluded)
+		sort := h.sorts[key]
+		inner := sort[len("(Array Int ") : len(sort)-1]
+		if z := zeroOfSort(inner); z != "" {
+			return Eq(Select(term, "0"), z)
+		}
+	}
+	return "true"
+}
+
+func zeroOfSort(s string) string {
+	switch s {
+	case "Int":
+		return "0"
+	case "Bool":
+		return "false"
+	case "String":
+		return "\"\""
+	case "Real":
+		return "0.0"
+	}
+	if strings.HasPrefix(s, "(_ BitVec ") {
+		n := strings.TrimSuffix(strings.TrimPrefix(s, "(_ BitVec "), ")")
+		return "(_ bv0 " + n + ")"
+	}
+	return ""
 }
 
 func (h *Heap) initial(key string) string {
